@@ -6,10 +6,10 @@ package main
 
 var explainMore = map[string]string{
 	"C01": " Added: (W) every read at a constant positive offset from an index that stands under a window guard on the same index and slice is covered by the strongest such guard (a guard weakened by one indexes out of range when the input ends there); (S) a slice end computed as the sum of two data-dependent values is compared before use (truncated multi-byte sequence at the end of the input).",
-	"C02": " Added: (L) the link-label normaliser's result is trimmed at both ends, Unicode-case-folded and whitespace-collapsed, by a typestate over its data path (= C19-L); (T) in block parsers, whole-line indentation and tab widths are measured from the reader's LineOffset(), the absolute column inside containers; (K) per-block context state read by a block parser's Continue/Close is initialised by its Open (= C09-K).",
+	"C02": " Added: (L) the link-label normaliser's result is trimmed at both ends, Unicode-case-folded and whitespace-collapsed, by a typestate over its data path (= C19-L); (T) in block parsers, whole-line indentation and tab widths are measured from the reader's LineOffset(), the absolute column inside containers; (K) per-block context state read by a block parser's Continue/Close is initialised by its Open (= C09-K); (O) the link-title delimiter pairs accepted by the inline-link and the reference-definition parsers, evaluated for all 256 opener bytes, are exactly the three forms of the specification at both sites.",
 	"C05": " Added: (X) a detached node carries no sibling links; (H) the nodes stored into firstChild/lastChild have no outward link, with a loop invariant for SortChildren's carried head; (F) sibling links of an argument node are consulted only under arg.Parent() == self; (I) iterate-and-unlink: no loop advances its cursor through a link that a call earlier in the iteration overwrote (sibling cursors in parser/ast, link-field cursors over bookkeeping lists module-wide) — leftover bracket/delimiter bookkeeping nodes.",
 	"C08": " Added: (B) a block parser without trigger characters never opens a block on a blank line (inside a container the parser loop does not filter them); (M) the block-quote marker parser consumes, on every accepting path, the marker and exactly one optional following space or tab.",
-	"C09": " Added: (K) every per-block context key that a block parser's own Continue/Close reads is stored by its Open on every node-returning path, so state left by an earlier block of the same kind is never read by a later one.",
+	"C09": " Added: (K) every per-block context key that a block parser's own Continue/Close reads is stored by its Open on every node-returning path, so state left by an earlier block of the same kind is never read by a later one; (E) the block-phase driver returns from inside the opened-blocks loop only after closing all open blocks (lower index 0), so how a block is closed does not depend on whether input follows; (O) reference definitions accept the same three title forms as inline links (= C02-O), so a definition block is recognised wherever it stands.",
 	"C10": " Added to (H): every feasible path on which SoftLineBreak() is true passes the HardWraps branch before returning (no fast path that recognises the soft break and returns).",
 	"C11": " Added: (T) the trigger sets of the extension parsers whose characters the statement names (Strikethrough, TaskList, Footnote, DefinitionList) are constant and contained in those characters; (D) the table extension accepts a delimiter cell only after a match of a constant regular expression every match of which contains '-'.",
 	"C13": " Added: (X) detached nodes carry no links; (H) ends of the child list have no outward link (inductive for the sort's carried head); (F) foreign-reference guard on every sibling-link read of an argument; (O) the in-place insertion sort links the element exactly in front of the node it was compared with and found not-less; (K5) also at loop cuts: the result of every recursive Walk call is tested for error and Stop before the loop continues.",
